@@ -506,25 +506,45 @@ func c15Order(r *kit.Run, idx int64, rng *rand.Rand) {
 	var log []string
 	var mu sync.Mutex
 	rec := func(s string) { mu.Lock(); log = append(log, s); mu.Unlock() }
-	ctx := context.Background()
+	ctx, cancelCtx := context.WithCancel(context.Background())
+	defer cancelCtx()
 	failAt := -1
-	if rng.IntN(3) == 0 {
+	// cancelAt: the part with this index cancels the context it runs with
+	// and returns normally; the parts after it must not run
+	cancelAt := -1
+	switch rng.IntN(4) {
+	case 0:
 		failAt = rng.IntN(3)
+	case 1:
+		cancelAt = rng.IntN(3)
 	}
 	mkW := func(k int) fun.Worker {
 		return func(context.Context) error {
 			rec(fmt.Sprintf("w%d", k))
+			if k == cancelAt {
+				cancelCtx()
+			}
 			if k == failAt {
 				return errProbe
 			}
 			return nil
 		}
 	}
-	mkO := func(k int) fun.Operation { return func(context.Context) { rec(fmt.Sprintf("o%d", k)) } }
+	mkO := func(k int) fun.Operation {
+		return func(context.Context) {
+			rec(fmt.Sprintf("o%d", k))
+			if k == cancelAt {
+				cancelCtx()
+			}
+		}
+	}
 	mkH := func(k int) fun.Handler[int] { return func(int) { rec(fmt.Sprintf("h%d", k)) } }
 	mkR := func(k int) fun.Processor[int] {
 		return func(context.Context, int) error {
 			rec(fmt.Sprintf("r%d", k))
+			if k == cancelAt {
+				cancelCtx()
+			}
 			if k == failAt {
 				return errProbe
 			}
@@ -544,7 +564,7 @@ func c15Order(r *kit.Run, idx int64, rng *rand.Rand) {
 			got = mkW(0).Join(mkW(1), mkW(2))(ctx)
 			for k := 0; k < 3; k++ {
 				want = append(want, fmt.Sprintf("w%d", k))
-				if k == failAt {
+				if k == failAt || k == cancelAt {
 					break
 				}
 			}
@@ -552,12 +572,15 @@ func c15Order(r *kit.Run, idx int64, rng *rand.Rand) {
 			name = "Operation.Join"
 			mkO(0).Join(mkO(1), mkO(2))(ctx)
 			want = []string{"o0", "o1", "o2"}
+			if cancelAt >= 0 {
+				want = want[:cancelAt+1]
+			}
 		case 2:
 			name = "Processor.Join"
 			got = mkR(0).Join(mkR(1), mkR(2))(ctx, 1)
 			for k := 0; k < 3; k++ {
 				want = append(want, fmt.Sprintf("r%d", k))
-				if k == failAt {
+				if k == failAt || k == cancelAt {
 					break
 				}
 			}
@@ -606,7 +629,15 @@ func c15Order(r *kit.Run, idx int64, rng *rand.Rand) {
 			want = []string{"pre", "f", "post", "hook", "r0", "rpost"}
 		}
 	})
-	desc := map[string]any{"wrapper": name, "fail_at": failAt, "call_log": log, "documented_order": want}
+	joins := name == "Worker.Join" || name == "Operation.Join" || name == "Processor.Join"
+	if cancelAt >= 0 && !joins {
+		// the other wrappers make no statement about an expired context:
+		// the case counts as an ordinary one if nothing cancelled
+		if ctx.Err() != nil {
+			return
+		}
+	}
+	desc := map[string]any{"wrapper": name, "fail_at": failAt, "cancel_from_inside_part": cancelAt, "call_log": log, "documented_order": want}
 	if panicked {
 		r.Violation("C15/"+name+"/panic", idx, desc, fmt.Sprint(pv), nil)
 		return
@@ -616,7 +647,7 @@ func c15Order(r *kit.Run, idx int64, rng *rand.Rand) {
 		return
 	}
 	expectErr := failAt >= 0 && (name == "Worker.Join" || name == "Processor.Join" || (failAt == 0 && (name == "Worker.PreHook" || name == "Worker.PostHook")))
-	if name != "Producer.PreHook+PostHook" && name != "Future/Processor hooks" && (got != nil) != expectErr {
+	if cancelAt < 0 && name != "Producer.PreHook+PostHook" && name != "Future/Processor hooks" && (got != nil) != expectErr {
 		r.Violation("C15/"+name+"/error", idx, desc, fmt.Sprintf("result %v, a part failed=%v", got, expectErr), nil)
 		return
 	}
@@ -624,7 +655,7 @@ func c15Order(r *kit.Run, idx int64, rng *rand.Rand) {
 		r.Violation("C15/"+name+"/error", idx, desc, fmt.Sprint(got), nil)
 		return
 	}
-	r.Distinct(fmt.Sprintf("order|%s|f=%d", name, failAt))
+	r.Distinct(fmt.Sprintf("order|%s|f=%d|c=%d", name, failAt, cancelAt))
 }
 
 // c15Background: waiters returned by Launch / Signal / Background /
